@@ -19,7 +19,8 @@ import OSq.Proofs.DecomposeLoop
   * `exactRepl_circOp`     `ExactRepl g gs` ⇒ `∃ z, ‖z‖ = 1 ∧ circOp n (gs as statements) [] = z • gateOp n g`
   * `exactRepl_accepted`   `ExactRepl g gs` and an entry of modulus `≥ atol` ⇒ `checkGateReplacement atol g gs = none`
                            (the exactness hypothesis is consistent with acceptance for every positive tolerance)
-  * `exactRepl_of_crisp`   accepted, honest closeness tests, and the factor found has modulus one ⇒ `ExactRepl g gs`
+  * `exactRepl_of_crisp`   accepted and honest closeness tests ⇒ `ExactRepl g gs` (the measured phase is normalised,
+                           hence a unit by itself)
   * `spliceSpec_replacesU` the specification `spliceSpec d i l` of the pass is a gate-by-gate replacement (`ReplacesU`)
   * `decompose_sem`        `decompose atol d stmts = (out, none)`, gates well formed, every accepted replacement exact
                            ⇒ `CircEquiv n stmts out ∧ SameBarriers stmts out`
@@ -103,26 +104,17 @@ theorem exactRepl_accepted (atol : ℝ) (hatol : 0 < atol) {g : Gate ℝ} {gs : 
   simp only [checkGateReplacement, hall, hA, hB, heq, Bool.not_true, Bool.false_eq_true, if_false,
     if_true]
 
-/-- conversely: acceptance + honest closeness tests + a unit factor give exactness -/
+/-- conversely: acceptance + honest closeness tests give exactness (the measured phase `pivotPhase A B` is
+    normalised, so it is a unit factor by itself: no hypothesis on its modulus is needed any more) -/
 theorem exactRepl_of_crisp (atol : ℝ) (hatol : 0 < atol) {g : Gate ℝ} {gs : List (Gate ℝ)} {A B : Mat ℝ}
     (hA : localMatrix g.operands [g] = .ok A) (hB : localMatrix g.operands gs = .ok B)
     (hacc : equivPhase atol A B = true)
-    (hunit : ‖A.flat (argmaxAbs A) / B.flat (argmaxAbs A)‖ = 1)
     (hcrisp : ∀ k, k < 2 ^ g.operands.length * 2 ^ g.operands.length →
-      ‖A.flat k - A.flat (argmaxAbs A) / B.flat (argmaxAbs A) * B.flat k‖
-        ≤ atol + 1e-5 * ‖A.flat (argmaxAbs A) / B.flat (argmaxAbs A) * B.flat k‖ →
-      A.flat k = A.flat (argmaxAbs A) / B.flat (argmaxAbs A) * B.flat k) :
-    ExactRepl g gs := by
-  refine ⟨A, B, hA, hB, A.flat (argmaxAbs A) / B.flat (argmaxAbs A), hunit, ?_⟩
-  obtain ⟨z, _, hzdef, -, -, H⟩ := equivPhase_sound atol hatol A B hacc
-  intro i j hi hj
-  have ha := (localMatrix_dim hA).1
-  have hb := (localMatrix_dim hB).1
-  rw [Mat.get_eq_flat A ha, Mat.get_eq_flat B hb]
-  have hk := Mat.index_lt hi hj
-  apply hcrisp _ hk
-  rw [← hzdef]
-  exact H _ (by rw [ha]; exact hk)
+      ‖A.flat k - pivotPhase A B * B.flat k‖ ≤ atol + 1e-5 * ‖pivotPhase A B * B.flat k‖ →
+      A.flat k = pivotPhase A B * B.flat k) :
+    ExactRepl g gs :=
+  ⟨A, B, hA, hB, equivPhase_crisp_phaseEq atol hatol _ A B (localMatrix_dim hA).1 (localMatrix_dim hB).1
+    hacc hcrisp⟩
 
 /-! ## The specification of the pass is a gate-by-gate replacement -/
 
